@@ -1184,6 +1184,10 @@ class DiscretizedSpaceElement(Tensor):
             elem.tensor if isinstance(elem, type(self)) else elem
             for elem in inputs)
 
+        # The same for a `where` mask, which takes part in Numpy's dispatch
+        if isinstance(kwargs.get('where', None), type(self)):
+            kwargs['where'] = kwargs['where'].tensor
+
         # --- Get some parameters for later --- #
 
         # Need to filter for `keepdims` in case `method='reduce'` since it's
